@@ -30,6 +30,7 @@ class C13(TalCheck):
                 "prefixes": 0.15, "macros": 0.3, "i18n": 0.2, "code": 0.1,
                 "markers": 0.3}
     plans_per_template = 45
+    async_interrupts = 10
 
     def is_nontrivial(self, plan, r, m) -> bool:
         return m.get("handled", 0) > 0 or (
